@@ -1,6 +1,7 @@
 package props
 
 import (
+	"math"
 	"sort"
 	"strings"
 
@@ -656,6 +657,8 @@ type c01 struct {
 }
 
 const c01Prelude = `
+NAN = float('nan')
+INF = float('inf')
 def F(*a, **k):
     return (a, k.get('x'), k.get('y'))
 class OC:
@@ -878,6 +881,50 @@ func c01Run(rc *core.RunCtx) {
 			{kind: "ifexp", kids: []*enode{leaf(vInt(1)), leaf(vInt(2)), leaf(vInt(0))}},
 			{kind: "tuple", kids: []*enode{leaf(vInt(1)), leaf(vInt(2))}},
 		}, d2, func(t *enode) { c.checkExpr(t, "depth3") })
+	}
+	// (1d) comparisons that are not total: every ordering/equality operator over {nan, inf, 1, 2.5}
+	// squared, bare, under `not` and `not not`, as the test of a conditional expression and as an
+	// operand of and/or, and the chains of two operators over the cube - `not a < b` is not `a >= b`
+	rc.Part = "nan-compare"
+	{
+		vals := []V{vFloat(math.NaN()), vFloat(math.Inf(1)), vInt(1), vFloat(2.5)}
+		ops := []string{"<", "<=", "==", "!=", ">", ">="}
+		wrap := func(t *enode) []*enode {
+			not := &enode{kind: "un", op: "not", kids: []*enode{t}}
+			return []*enode{t, not, {kind: "un", op: "not", kids: []*enode{clone(not)}},
+				{kind: "ifexp", kids: []*enode{leaf(vInt(1)), clone(t), leaf(vInt(0))}},
+				{kind: "ifexp", kids: []*enode{leaf(vInt(1)), clone(not), leaf(vInt(0))}},
+				{kind: "bool", op: "and", kids: []*enode{clone(not), leaf(vInt(2))}},
+				{kind: "bool", op: "or", kids: []*enode{clone(not), leaf(vInt(2))}}}
+		}
+		for _, op := range ops {
+			for _, a := range vals {
+				for _, b := range vals {
+					for _, t := range wrap(&enode{kind: "cmp", ops: []string{op}, kids: []*enode{leaf(a), leaf(b)}}) {
+						if rc.Expired() || rc.Done() {
+							return
+						}
+						c.checkExpr(t, "nan-compare")
+					}
+				}
+			}
+		}
+		for _, o1 := range ops {
+			for _, o2 := range ops {
+				for _, a := range vals {
+					for _, b := range vals {
+						for _, d := range vals {
+							if rc.Expired() || rc.Done() {
+								return
+							}
+							t := &enode{kind: "cmp", ops: []string{o1, o2}, kids: []*enode{leaf(a), leaf(b), leaf(d)}}
+							c.checkExpr(t, "nan-compare")
+							c.checkExpr(&enode{kind: "un", op: "not", kids: []*enode{clone(t)}}, "nan-compare")
+						}
+					}
+				}
+			}
+		}
 	}
 	// (2) assignment forms
 	c01Assign(c)
